@@ -4,7 +4,7 @@ _p = os.path.join(os.path.dirname(os.path.abspath(__file__)), "C15.py")
 _s = importlib.util.spec_from_file_location("c15cfg", _p); _m = importlib.util.module_from_spec(_s); _s.loader.exec_module(_m)
 SPEC = {
     "module": "C33.Property",
-    "targets": ["C33/Property.vo"],
+    "targets": ["C33/Property.vo", "C33/NotifySpec.vo"],
     "theorems": ["C33_failed_run_changes_nothing", "C33_failures_erased", "C33_model_satisfies_spec",
                  "C33_fatal_error_fails_run", "C33_successful_run_is_complete", "C33_old_tal_failure_refuted", "C33_nonvacuous"],
     "streams": [dict(_m.STREAM, name="srv33"),
@@ -12,7 +12,13 @@ SPEC = {
                  "why": {"2": "C33.FaultSpec.fspec_okb false: a validation run on a cache with a planted local I/O fault (a "
                               "directory where a file is expected or the other way round, which utils::fatal reports as a "
                               "fatal error) ended successfully with a payload different from the run without the fault: a "
-                              "run that hit a fatal error did not fail, so its partial data set would be served"}}],
+                              "run that hit a fatal error did not fail, so its partial data set would be served"}},
+                {"name": "notify", "bin": "c32", "check_module": "C33.NotifySpec", "fn": "check_ncase", "casetype": "ncase",
+                 "env": {"C32_STREAM": "notify"},
+                 "why": {"2": "C33.NotifySpec.check_ncase: the real Server::run (child process, forced run outcomes, no TALs so "
+                              "that the data set never changes after the first successful run) sent a Serial Notify to an RTR "
+                              "client that was already synchronised: a failed (or unchanged) run sent a notification "
+                              "(oracle-only stream, no model)"}}],
     "level_text": "Theorems: a failed validation cycle leaves the entire served state unchanged, and for every history of "
                   "successful and failed runs the served state equals that of the history with the failures erased "
                   "(induction over the history). On the implementation, failed runs (retryable and fatal, forced at "
@@ -23,7 +29,10 @@ SPEC = {
                   "is a failure exactly when some task fails and a successful run processed every publication point; the "
                   "stream `iofaults` plants local I/O faults in the cache of the real engine/store/collector on generated "
                   "repositories and requires a run that ends successfully to have the payload of the fault-free twin run "
-                  "(this found the defect repaired by 'fix: fail the run when a trust anchor cannot be loaded or stored').",
+                  "(this found the defect repaired by 'fix: fail the run when a trust anchor cannot be loaded or stored'). A third, "
+                  "oracle-only stream (`notify`, no model) runs the real Server::run in a child process with an RTR client "
+                  "inside it and counts the Serial Notify PDUs sent after the client is synchronised: exactly the first "
+                  "run's, none for failed or unchanged runs.",
     "level_note": "Model: process_once returns before update() when the run fails (src/operation.rs). Tie: real "
                   "Server::process_once with the run outcome forced by the hook at the top of ValidationReport::process; "
                   "observables: RTR state and data, /json ETag + Last-Modified + body, /json-delta, pending notification.",
